@@ -71,8 +71,7 @@ def lift(x):
     if isinstance(x, float):
         if math.isnan(x) or math.isinf(x):
             raise EngineUnsupported("cannot lift non-finite float %r" % x)
-        # decimal reading of the literal: 0.1 means one tenth (exact-real semantics)
-        return z3.RealVal(str(Fraction(repr(x))))
+        return z3.RealVal(str(float_as_rational(x)))
     # numpy scalars
     tn = type(x).__module__
     if tn == "numpy":
@@ -82,6 +81,19 @@ def lift(x):
         if isinstance(x, numpy.floating):
             return lift(float(x))
     raise EngineUnsupported("cannot lift %r of type %s" % (x, type(x)))
+
+
+def float_as_rational(x):
+    """exact-real reading of a concrete double: the small rational p/q (q <= 10^4) whose nearest
+    double it is (so 1.0/6 computed concretely by the code means one sixth), else its decimal
+    literal (0.1 means one tenth), which is itself within half an ulp"""
+    fr = Fraction(x)
+    if fr.denominator <= 4096:
+        return fr
+    small = fr.limit_denominator(10000)
+    if float(small) == x:
+        return small
+    return Fraction(repr(x))
 
 
 def is_sym(x):
@@ -134,7 +146,7 @@ def norm(e):
         return SV(e)
     if isinstance(v, Fraction):
         f = float(v)
-        if Fraction(f) == v or Fraction(repr(f)) == v:
+        if Fraction(f) == v or float_as_rational(f) == v:
             return f
         return SV(e)
     return v
